@@ -62,6 +62,25 @@ func seedFromEnv() uint64 {
 	return core.HashStr(0, s)
 }
 
+// selectUnits restricts a unit list to the names that start with one of the comma-separated
+// prefixes in VERIF_UNIT_PREFIXES (race side run: the concurrent and cold-start units only).
+func selectUnits(units []core.Unit) []core.Unit {
+	pf := os.Getenv("VERIF_UNIT_PREFIXES")
+	if pf == "" {
+		return units
+	}
+	var out []core.Unit
+	for _, u := range units {
+		for _, p := range strings.Split(pf, ",") {
+			if p != "" && strings.HasPrefix(u.Name, p) {
+				out = append(out, u)
+				break
+			}
+		}
+	}
+	return out
+}
+
 // partition assigns units to shards: every Solo unit alone, the rest by
 // longest-processing-time-first over n shards. Deterministic.
 func partition(units []core.Unit, n int) [][]int {
@@ -137,7 +156,7 @@ func shard(args []string) int {
 	work := args[3]
 	idx, _ := strconv.Atoi(args[4])
 	n, _ := strconv.Atoi(args[5])
-	units := p.Units(tier)
+	units := selectUnits(p.Units(tier))
 	parts := partition(units, n)
 	if idx >= len(parts) {
 		return 0
@@ -294,7 +313,7 @@ func driver(args []string) int {
 	}
 	seed := seedFromEnv()
 	self, _ := os.Executable()
-	units := p.Units(tier)
+	units := selectUnits(p.Units(tier))
 	parts := partition(units, nShards())
 	stall := p.StallSeconds
 	if stall == 0 {
@@ -318,7 +337,7 @@ func driver(args []string) int {
 		cmd := exec.Command(self, "shard", p.ID, tier, strconv.FormatUint(seed, 10), work, strconv.Itoa(i), strconv.Itoa(nShards()))
 		cmd.Stdout, cmd.Stderr = lf, lf
 		cmd.Env = append(os.Environ(), "VERIF_WORK="+work)
-		if p.Race {
+		if p.Race || os.Getenv("VERIF_RACE_SIDE") == "1" {
 			cmd.Env = append(cmd.Env, "GORACE=halt_on_error=0 log_path="+filepath.Join(work, fmt.Sprintf("race.%d", i)))
 		}
 		if len(parts[i]) == 1 && units[parts[i][0]].Solo {
@@ -412,12 +431,23 @@ func driver(args []string) int {
 		inconcl = append(inconcl, rep.Inconcl...)
 	}
 	distinct := mergeHashes(work, len(kids))
-	if p.Post != nil {
+	raceSide := os.Getenv("VERIF_RACE_SIDE") == "1"
+	if p.Post != nil && !raceSide {
 		pv, pi := p.Post(&core.PostInfo{Work: work, Tier: tier, Seed: seed, Coverage: m.cov, Counters: m.cnt, Shards: len(kids)})
 		vios = append(vios, pv...)
 		inconcl = append(inconcl, pi...)
 	}
-	if p.Floors != nil {
+	if raceSide && core.RacePost != nil {
+		// the concurrent and cold-start units of this property, built with -race: reports with a
+		// library frame are violations of this property (its functions kept shared mutable state)
+		pv, pi := core.RacePost(&core.PostInfo{Property: p.ID, Work: work, Tier: tier, Seed: seed, Coverage: m.cov, Counters: m.cnt, Shards: len(kids)})
+		for _, v := range pv {
+			v.Arch = "race"
+		}
+		vios = append(vios, pv...)
+		inconcl = append(inconcl, pi...)
+	}
+	if p.Floors != nil && !raceSide {
 		for _, f := range p.Floors(tier, m.cov, m.cnt) {
 			inconcl = append(inconcl, "coverage floor not met: "+f)
 		}
@@ -470,6 +500,9 @@ func driver(args []string) int {
 		if runtime.GOARCH != "amd64" {
 			v.Arch = runtime.GOARCH
 			name = fmt.Sprintf("%s-%s-%s-%016x.json", p.ID, tier, runtime.GOARCH, core.HashStr(0, v.Key()))
+		} else if raceSide {
+			v.Arch = "race"
+			name = fmt.Sprintf("%s-%s-race-%016x.json", p.ID, tier, core.HashStr(0, v.Key()))
 		}
 		path := filepath.Join(artDir, name)
 		d, _ := json.MarshalIndent(v, "", " ")
@@ -532,17 +565,28 @@ func driver(args []string) int {
 	if side {
 		// a run of the same check on another platform (32-bit build): its summary is handed to
 		// the main run, which records it in the evidence file
-		sd, _ := json.Marshal(map[string]interface{}{"goarch": runtime.GOARCH, "tier": tier, "evaluations": m.evals, "distinct_nontrivial": distinct,
+		plat := runtime.GOARCH
+		if raceSide {
+			plat += "+race (concurrent and cold-start units only)"
+		}
+		sd, _ := json.Marshal(map[string]interface{}{"goarch": plat, "tier": tier, "evaluations": m.evals, "distinct_nontrivial": distinct,
 			"units_run": m.units, "violations": len(outV), "inconclusive": inconcl, "verdict": verdict(len(outV), len(inconcl))})
 		_ = os.WriteFile(filepath.Join(work, "side.json"), sd, 0o644)
 	} else {
-		if sj := os.Getenv("VERIF_SIDE_JSON"); sj != "" {
+		var others []interface{}
+		for _, sj := range strings.Split(os.Getenv("VERIF_SIDE_JSON"), ":") {
+			if sj == "" {
+				continue
+			}
 			if sd, err := os.ReadFile(sj); err == nil {
 				var x interface{}
 				if json.Unmarshal(sd, &x) == nil {
-					cov["other_platforms"] = []interface{}{x}
+					others = append(others, x)
 				}
 			}
+		}
+		if len(others) > 0 {
+			cov["other_platforms"] = others
 		}
 		_ = os.MkdirAll(filepath.Join(outRoot, "evidence"), 0o755)
 		d, _ := json.MarshalIndent(ev, "", " ")
@@ -562,6 +606,8 @@ func driver(args []string) int {
 	}
 	if runtime.GOARCH != "amd64" {
 		fmt.Printf("[GOARCH=%s] ", runtime.GOARCH)
+	} else if raceSide {
+		fmt.Printf("[-race, concurrent and cold-start units] ")
 	}
 	fmt.Printf("%s %s seed=%d: evaluations=%d distinct_nontrivial=%d units=%d/%d violations=%d known=%d wall=%.1fs verdict=%s\n",
 		p.ID, tier, seed, m.evals, distinct, m.units, len(units), len(outV), len(knownHit), time.Since(start).Seconds(), verdict(len(outV), len(inconcl)))
